@@ -57,6 +57,8 @@ static GenUri mutate(Tape &t, const GenUri &u, int *kind) {
 
 static Fields gen(Tape &t) {
   Fields f;
+  LongMode lm(t);
+  if (lm.on()) f.seti("long", 1);
   int arm = t.weighted({2, 5, 2, 3, 2});
   f.seti("arm", arm);
   if (arm == 0) { f.set("a", g_uri(t)); f.set("b", g_uri(t)); f.set("c", g_uri(t)); }
